@@ -410,11 +410,17 @@ MULTI = {
         "b_first.f90": "subroutine b_first()\n  use shp\n  type(circle) :: c\n  call c%area()\n  call area(c)\nend subroutine b_first\n",
         "shp.f90": "module shp\n  type :: circle\n    real :: r\n  contains\n    procedure :: area\n  end type circle\ncontains\n"
                    "  subroutine area(self)\n    class(circle), intent(inout) :: self\n    self%r = 1.0\n  end subroutine area\nend module shp\n",
+        # the dummy argument of a module procedure used as argument keyword in another file, next to a local of that name
+        "kw_m.f90": "module kwm\ncontains\n  subroutine setw(width)\n    integer, intent(in) :: width\n    print *, width\n  end subroutine setw\n"
+                    "  subroutine other()\n    call setw(width=4)\n  end subroutine other\nend module kwm\n",
+        "kw_main.f90": "program kw_main\n  use kwm\n  integer :: width\n  width = 2\n  call setw(width=3)\n  call setw(width = width)\nend program kw_main\n",
         "z_last.f90": "subroutine z_last()\n  use shp\n  type(circle) :: c\n  call c%area()\nend subroutine z_last\n"},
     "expect": {
         "x": [("a.f90", 1, 13), ("a.f90", 2, 2), ("a.f90", 3, 18), ("a.f90", 4, 19), ("a.f90", 5, 11), ("a.f90", 6, 22)],
         "ix": [("f.f", 1, 14), ("f.f", 2, 6), ("f.f", 3, 21)],
         "ext": [("m.f90", 2, 15), ("m.f90", 4, 19), ("m.f90", 9, 9), ("u.f90", 3, 7)],
+        "width@dummy": [("kw_m.f90", 2, 18), ("kw_m.f90", 3, 27), ("kw_m.f90", 4, 13), ("kw_m.f90", 7, 14), ("kw_main.f90", 4, 12), ("kw_main.f90", 5, 12)],
+        "width@local": [("kw_main.f90", 2, 13), ("kw_main.f90", 3, 2), ("kw_main.f90", 5, 20)],
         "area": [("b_first.f90", 3, 9), ("b_first.f90", 4, 7), ("shp.f90", 4, 17), ("shp.f90", 7, 13), ("shp.f90", 10, 17),
                  ("z_last.f90", 3, 9)]},
 }
@@ -601,7 +607,7 @@ def extra(repo, reg, tier, seed):
     w = native_references_multi()
     items.append(Item("C06/session/native_references_literals_and_files", "refuted" if w else "bounded-ok", "native-run(bounded)", 0.0,
                       mode="bounded", witness=w, confirmed=True if w else None, func=f"{LS}.get_all_references",
-                      detail="bounded: 7 files (a type-bound procedure that shares its implementation's name, used in files scanned before and after the type; '!' and quotes of the other kind inside character literals, trailing comments in "
+                      detail="bounded: 9 files (the dummy argument of a module procedure as argument keyword in another file; a type-bound procedure that shares its implementation's name, used in files scanned before and after the type; '!' and quotes of the other kind inside character literals, trailing comments in "
                              "free and fixed form, a procedure declared in an interface block of a module and used in another "
                              "file): references from every occurrence vs the expected occurrence set"))
     from contracts import c05_gen
